@@ -43,6 +43,7 @@ public:
     void visitVariable(variable_t&) override;
     void visitFunction(function_t&) override;
     int32_t visitExprStatement(ExprStatement* stat) override;
+    int32_t visitForStatement(ForStatement* stat) override;
     bool visitTemplateBefore(template_t&) override;
 
     void visitFrame(const frame_t& frame);
